@@ -23,11 +23,14 @@ func genC06(t *rapid.T) hx.SessionCase {
 		o.MaxEntries, o.MaxTotal = 1, 3
 	}
 	tree := hx.GenTree(t, o)
+	many := 0
 	if shape == 2 || (shape == 3 && hx.Thorough()) {
-		k := rapid.SampledFrom([]int{40, 130, 400}).Draw(t, "many")
+		// entry counts around powers of two and common batch sizes, where listing loops tend to break
+		k := rapid.SampledFrom([]int{40, 63, 64, 65, 130, 255, 256, 257, 400, 511, 512, 513, 1023, 1024, 1025, 1030}).Draw(t, "many")
 		if hx.Thorough() && shape == 3 {
-			k = 3000
+			k = rapid.SampledFrom([]int{2047, 2048, 2049, 3000, 4096, 4097}).Draw(t, "many-thorough")
 		}
+		many = k
 		d := hx.Dir("MANY")
 		for i := 0; i < k; i++ {
 			switch i % 11 {
@@ -43,6 +46,10 @@ func genC06(t *rapid.T) hx.SessionCase {
 		}
 		tree.Children = append(tree.Children, d)
 	}
+	// sometimes a real directory literally named like a virtual-image prefix, with content below it
+	if lit := rapid.SampledFrom([]string{"", "", "", "", "", "***DVD***", "***PS3***"}).Draw(t, "literal-prefix-dir"); lit != "" {
+		tree.Children = append(tree.Children, hx.Dir(lit, hx.File("top.bin", 7, 81), hx.Dir("GAME", hx.File("Y.BIN", 10, 79), hx.Dir("sub", hx.File("z", 3, 80)))))
+	}
 	pool := hx.PoolOf(tree)
 	dirs := append([]string{""}, pool.Dirs...)
 	var reqs []hx.Req
@@ -51,6 +58,20 @@ func genC06(t *rapid.T) hx.SessionCase {
 	for b := 0; b < nblocks; b++ {
 		l := fmt.Sprintf("b%d", b)
 		d := rapid.SampledFrom(dirs).Draw(t, l+"-dir")
+		if many > 0 && b == 0 && rapid.IntRange(0, 2).Draw(t, l+"-tomany") > 0 {
+			// the big directory: some entry-by-entry reads, then the bulk listing of what remains, where the
+			// remainder is often a power of two (batch boundaries of a chunked enumeration)
+			j := rapid.IntRange(0, 8).Draw(t, l+"-j")
+			if rem := rapid.SampledFrom([]int{64, 128, 256, 512, 1024, 2048, 4096}).Draw(t, l+"-rem"); rapid.Bool().Draw(t, l+"-pow2") && many-rem >= 0 && many-rem <= 60 {
+				j = many - rem
+			}
+			reqs = append(reqs, hx.Req{Op: "OPEN_DIR", Path: "/MANY"})
+			for i := 0; i < j; i++ {
+				reqs = append(reqs, hx.Req{Op: rapid.SampledFrom([]string{"READ_ENTRY", "READ_ENTRY2"}).Draw(t, fmt.Sprintf("%s-jo%d", l, i))})
+			}
+			reqs = append(reqs, hx.Req{Op: "READ_DIR"}, hx.Req{Op: "READ_DIR"}, hx.Req{Op: "READ_ENTRY2"})
+			continue
+		}
 		if rapid.IntRange(0, 3).Draw(t, l+"-notdir") == 0 && len(all) > 1 {
 			// open-dir must succeed exactly for existing directories: files, links to files, dangling links and
 			// missing paths must be refused (and leave no listable handle behind)
